@@ -453,6 +453,20 @@ def run(tier, seed):
     wkdis, wofail = check_wma(rep, impl, model, cases, par)
     rep.sample({"withMaxAttempts": wma_text(cases[4]), "env": ",".join(wma_env(cases[4]))})
 
+    # ---- O-C17-stop: a closer closed (a context cancelled) BEFORE Next is entered wins over a timer that is already due ----
+    burst = []
+    nb = 4000 if tier == "quick" else 40000
+    for use_closer in (True, False):
+        bsc = {"Opts": {"InitialNs": 1, "MaxNs": 1, "MultNum": 1, "MultDen": 1, "RandNum": 0, "RandDen": 1, "MaxRetries": 0},
+               "UseCloser": use_closer, "StartClosed": False, "StartCancelled": False,
+               "Ops": [{"K": "n", "Us": 0}, {"K": "c" if use_closer else "x", "Us": 0}, {"K": "n", "Us": 0}]}
+        ob = impl.call("retryScripts", Scripts=[bsc] * nb, Parallel=8)
+        rb = ob.get("res") or []
+        late = sum(1 for r in rb if r and r[-1]["r"] == "t")
+        rep.count("stop-then-next with a 1 ns back-off", len(rb))
+        if late or len(rb) != nb:
+            burst.append({"stopped by": "closer" if use_closer else "context", "runs": len(rb), "attempts yielded after the stop": late, "script": bsc})
+    rep.obligation("O-C17-stop: %d x (Next; stop; Next) with a 1 ns back-off, by closer and by context: no attempt after the stop" % (2 * nb), "O", not burst, json.dumps(burst)[:600])
     rep.obligation("K-C17a: real loop vs model on %d scripts (outcomes; measured waits >= model's shortest delay; %d inconclusive)" % (len(scripts), inconcl),
                    "K", not kdis, json.dumps(kdis[:3], default=str))
     rep.obligation("K-C17b: real WithMaxAttempts vs model on %d cases" % len(cases), "K", not wkdis, json.dumps(wkdis[:3], default=str))
@@ -475,6 +489,13 @@ def run(tier, seed):
         else:
             known_n += len(fs)
             rep.count("inputs-hitting-a-known-finding", len(fs))
+    if burst:
+        b = burst[0]
+        if rep.violation("Next yields an attempt although the %s was closed / cancelled before it was called: %d of %d runs with a 1 ns back-off"
+                         % (b["stopped by"], b["attempts yielded after the stop"], b["runs"]), {"failing": burst},
+                         tags={"fn": "Next", "clause": "afterStop", "pendingReset": False, "burst": True}):
+            unknown += 1
+            unknown_fns.add("stop-burst")
     known_only = bool(groups) and unknown == 0
     loop_bad = bool(unknown_fns & {"Next", "NextCh"})
     rep.obligation("O-C17a: the monitor of the property (strict) accepts the events of every real loop run (inputs matching a known finding excepted)", "O",
